@@ -24,6 +24,11 @@ class Point(ComplexModel):
     label = Unicode
 
 
+class Point3(Point):         # x, y, label are inherited: field-wise invocation passes the parent's fields first
+    __namespace__ = 'tns'
+    z = Integer
+
+
 class Svc(Service):
     @rpc(Integer, Unicode, Boolean, _returns=Unicode)
     def show(ctx, i, s, b):
@@ -60,6 +65,11 @@ class Svc(Service):
     def bare(ctx, p):
         CAP['args'] = (p,)
         return p.x if p is not None else None
+
+    @rpc(Point3, _returns=Integer, _body_style='bare')
+    def bare3(ctx, p):
+        CAP['args'] = (p,)
+        return p.z if p is not None else None
 
     @rpc(_returns=Point, _body_style='bare')
     def status(ctx):
@@ -178,14 +188,15 @@ def _same_args(sx, x, y):
 def _same_point(sx, p, q):
     if not isinstance(q, Point):
         return False
-    return sx.And(sx.eq(p.x, q.x), sx.eq(p.y, q.y), sx.eq(p.label, q.label))
+    return sx.And(sx.eq(p.x, q.x), sx.eq(p.y, q.y), sx.eq(p.label, q.label), type(p) is type(q),
+                  sx.eq(getattr(p, 'z', None), getattr(q, 'z', None)))
 
 
 FUNCS = ['spyne.server.null._FunctionCall.__call__', 'spyne.server.null._cb_sync',
          'spyne.application.Application.process_request', 'spyne.server._base.ServerBase.get_out_object',
          'spyne.protocol.dictdoc.hier.HierDictDocument.serialize', 'spyne.protocol.dictdoc.hier.HierDictDocument.deserialize']
 METHODS = ['show', 'first', 'two', 'two-ignored', 'nothing', 'noargs', 'outbare', 'bare', 'gen', 'boom', 'ign', 'ign_outbare', 'div', 'same2', 'arr2',
-           'ign_empty', 'echo']
+           'ign_empty', 'echo', 'bare3']
 
 
 @harness('C18', params=METHODS, functions=FUNCS,
@@ -216,6 +227,8 @@ def null_vs_wire(sx, m):
         pos, kw, body = (a, s), dict(echo=a, s=s), {'echo': a, 's': s}
     elif m == 'bare':
         pos, kw, body = (a, b, s), dict(x=a, y=b, label=s), {'x': a, 'y': b, 'label': s}
+    elif m == 'bare3':
+        pos, kw, body = (a, b, s, b), dict(x=a, y=b, label=s, z=b), {'x': a, 'y': b, 'label': s, 'z': b}
     else:
         pos, kw, body = (a, s), dict(a=a, msg=s), {'a': a, 'msg': s}
     name = 'two' if m == 'two-ignored' else m
@@ -256,6 +269,8 @@ def null_vs_wire(sx, m):
             ok += [sx.eq(x, y) for x, y in zip(direct, doc)]
     else:
         ok.append(sx.eq(direct, doc))
+    if m == 'bare3':
+        ok.append(nargs is not None and len(nargs) == 1 and isinstance(nargs[0], Point3) and sx.eq(nargs[0].z, b) and sx.eq(nargs[0].x, a))
     return sx.And(*ok)
 
 
